@@ -143,7 +143,7 @@ func C19(r *drv.Run) {
 	if !quick(r) {
 		rounds = 3000
 	}
-	r.Rule = "rounds of 8..32 goroutines issuing Compile (sources with and without regex groups, with loops, with relocated global patterns, sources that fail in the lexer / parser / regex sub-parser / generator / type checker, sources of about a kilobyte), Compile+Run, Run on shared pre-compiled programs and Run followed by Json()/FormattedJson() of the result list, on short texts and on texts long enough for loops to pass 64, 128 and 256 iterations in one attempt, all released from one barrier, in a -race build of the worker; yield hooks (H2 every lexer read, H3 parser/generator sites, H1 every VM step) armed in half of the rounds. Plus compile storms: 16 goroutines each compiling a few tiny sources two hundred times over without yields (9 600 compilations per storm), every repetition compared. Oracle 1: the Go race detector (GORACE halt_on_error=0, log files parsed, reports de-duplicated by the pair of outermost repository frames): any report is a violation. Oracle 2: every concurrent call's result digest (canonical bytecode with loop ids normalised; all match fields; the rendered JSON texts) equals the digest of the same call executed alone in a fresh sequential worker. Oracle 3: canonical bytecode of the shared programs unchanged by the round. Non-trivial = a call whose [call,return] interval overlapped another call's on the shared monotonic clock; distinct by (round, call index)."
+	r.Rule = "rounds of 8..32 goroutines issuing Compile (sources with and without regex groups, with loops, with relocated global patterns, sources that fail in the lexer / parser / regex sub-parser / generator / type checker, sources of about a kilobyte), Compile+Run, Run on shared pre-compiled programs and Run followed by Json()/FormattedJson() of the result list, on short texts and on texts long enough for loops to pass 64, 128 and 256 iterations in one attempt, all released from one barrier, in a -race build of the worker; yield hooks (H2 every lexer read, H3 parser/generator sites, H1 every VM step) armed in half of the rounds. Plus compile storms: 16 goroutines each compiling a few tiny sources two hundred times over without yields (9 600 compilations per storm), every repetition compared. One round in ten runs next to one more compilation that waits for its source on a named pipe; the source is delivered when every other call has returned - a call that alone returns at once must not wait for it (the writer gives up after 20 s, which is the violation). Oracle 1: the Go race detector (GORACE halt_on_error=0, log files parsed, reports de-duplicated by the pair of outermost repository frames): any report is a violation. Oracle 2: every concurrent call's result digest (canonical bytecode with loop ids normalised; all match fields; the rendered JSON texts) equals the digest of the same call executed alone in a fresh sequential worker. Oracle 3: canonical bytecode of the shared programs unchanged by the round. Non-trivial = a call whose [call,return] interval overlapped another call's on the shared monotonic clock; distinct by (round, call index)."
 	r.Assumptions = []string{
 		"the race detector only sees races on schedules that occur; yields and repetition raise the odds, not to certainty",
 		"the harness's own monitor state is atomic in concurrent mode; the step and lexer counters are switched off there",
@@ -205,8 +205,17 @@ func C19(r *drv.Run) {
 			}
 		}
 		c := wire.Case{Op: "conc", Srcs: srcs, Texts: texts, Calls: calls, Goroutines: g, Yield: i%2 == 0}
+		if i%10 == 7 {
+			// one more compilation waits for its source on a named pipe while the round runs
+			c.Mode = "slow-input"
+		}
 		return &drv.Item{Case: c, Check: func(res *wire.Result) {
 			r.Eval(len(res.Calls))
+			if strings.HasPrefix(res.Mismatch, "slow-input:") {
+				r.Violate(&drv.Violation{Sig: "calls-wait-for-a-compilation-that-waits-for-its-input", Case: &c, Detail: map[string]any{"what": res.Mismatch, "goroutines": g, "calls": len(calls)}})
+				return
+			}
+			r.Count("rounds_next_to_a_compilation_waiting_for_input", res.Counters["slow_input_compilations"])
 			if res.Died && (res.Guard == "cpu" || res.Guard == "heap") {
 				// the worker's resource guards, not the library: a round of up to 160 calls in the race build can
 				// exceed them on the long texts; the round is not judged
@@ -328,6 +337,9 @@ func C19(r *drv.Run) {
 		}
 		if r.Counter("calls_overlapping_another") == 0 || r.Counter("yields_taken") == 0 {
 			r.Inconclusive("coverage floor: no overlapping calls / no yields taken")
+		}
+		if r.Counter("rounds_next_to_a_compilation_waiting_for_input") == 0 {
+			r.Inconclusive("coverage floor: rounds_next_to_a_compilation_waiting_for_input = 0")
 		}
 	}
 }
